@@ -355,8 +355,11 @@ def conformance(t, info, msg, x, ystate, transport):
     if (post['jpg'] == 'yes', post['img'] == 'arr') != (bool(x.has_jpg), bool(x.has_raw)):
         d.append(f'sender frame after encoding has_jpg/has_raw={bool(x.has_jpg)}/{bool(x.has_raw)}, the reference has '
                  f'{post}')
-    if info['has_image'] and x.has_image and not np.array_equal(x.image, info['px']):
-        d.append('encoding changed the sender frame\'s pixels')
+    try:
+        if info['has_image'] and x.has_image and not np.array_equal(x.image, info['px']):
+            d.append('encoding changed the sender frame\'s pixels')
+    except Exception as e_:        # noqa - the sender frame's own image cannot be had (an observation of the code under test)
+        d.append(f'the sender frame\'s image raises {type(e_).__name__}: {str(e_)[:120]}')
     ey = e['y']
     if ystate is not None and (ey['jpg'] == 'yes', ey['img'] == 'arr') != ystate:
         d.append(f'received frame has_jpg/has_raw={ystate[0]}/{ystate[1]}, the reference has {ey}')
